@@ -495,7 +495,7 @@ def gen_cfg(rng, prop):
     base = {"mk": 5, "arith": 5, "reduce": 4, "slice": 5, "setitem": 6, "set_values": 3, "inplace_unary": 1, "df": 2,
             "split": 1, "stack": 1, "stock": 2, "lifetime": 1, "stock_compute": 1, "system": 1, "stock_convert": 1, "plot": 0, "valq": 1}
     if prop == "C05":
-        base.update({"setitem": 16, "slice": 4, "stock": 0, "lifetime": 0, "stock_compute": 0, "system": 0, "stock_convert": 0, "df": 1, "set_values": 2})
+        base.update({"setitem": 16, "slice": 4, "stock": 0, "lifetime": 0, "stock_compute": 0, "system": 0, "stock_convert": 0, "df": 2.5, "set_values": 2})
     elif prop == "C15":
         base.update({"slice": 9, "arith": 8, "reduce": 6, "mk": 7, "system": 3, "lifetime": 2, "plot": 1.5, "valq": 4})
     elif prop == "C13":
